@@ -155,7 +155,7 @@ func checkC12(c *Ctx) {
 	p := c.P
 	c.Decided = "writer/reader agreement of the wire conversion: every field of every wire message type used for protocol objects is written by an encoder and read by a decoder, and the correspondence between wire fields and protocol-object fields induced by the encoders is the same as the one induced by the decoders (no field dropped, none crossed); " +
 		"the sender identity of proposals, votes, new-view and timeout messages is taken from the authenticated peer; bytes-to-sign of blocks, certificates and timeout messages cover every field of the object except derived ones; " +
-		"block fields are written only at construction and by SetTimestamp, each time followed by recomputing the cached hash from those bytes; a fetched block is accepted only if its hash is the requested one."
+		"block fields are written only at construction and by SetTimestamp, each time followed by recomputing the cached hash from those bytes; a fetched block is accepted only if its hash is the requested one. An optional part is converted when it is present, not when it is absent (polarity of the presence test)."
 	c.Decided += " The proposer written into a received block equals the id the proposal is attributed to."
 	c.NotDec = "value-level round-trip equality (timestamp precision, varint extremes) and protobuf's own marshalling."
 	c.Expect("C12.1", 20)
